@@ -5,15 +5,48 @@ package main
 
 import (
 	"bufio"
+	"bytes"
 	"encoding/json"
 	"fmt"
+	"io"
+	"net/http"
+	"net/http/httptest"
 	"os"
+	"strconv"
+	"sync/atomic"
 
 	"github.com/mimiro-io/datahub/internal/jobs"
+	"github.com/mimiro-io/datahub/internal/server"
+	"github.com/mimiro-io/datahub/internal/web"
 )
+
+// a hub endpoint for the job's http sink / http source: the real handlers, plus a scripted receiver fault
+// (refuse every POST whose body mentions entity e<id> with 400, as the stream parser does for a bad entity)
+func serverFactory(store *server.Store, dsm *server.DsManager) (string, func(int), func()) {
+	e := web.VerifC08Echo(store, dsm)
+	var reject int64 = -1
+	h := http.HandlerFunc(func(w http.ResponseWriter, r *http.Request) {
+		id := atomic.LoadInt64(&reject)
+		if r.Method == http.MethodPost && id >= 0 {
+			body, _ := io.ReadAll(r.Body)
+			r.Body = io.NopCloser(bytes.NewReader(body))
+			needle := []byte("/e" + strconv.FormatInt(id, 10) + "\"")
+			needle2 := []byte(":e" + strconv.FormatInt(id, 10) + "\"")
+			if bytes.Contains(body, needle) || bytes.Contains(body, needle2) {
+				http.Error(w, "verif: receiver refuses entity", http.StatusBadRequest)
+				return
+			}
+		}
+		e.ServeHTTP(w, r)
+	})
+	srv := httptest.NewServer(h)
+	return srv.URL, func(id int) { atomic.StoreInt64(&reject, int64(id)) }, srv.Close
+}
 
 func main() {
 	dir := os.Args[1]
+	jobs.VerifC08Server = serverFactory
+	jobs.VerifC08DecodeSince = web.VerifC08DecodeSince
 	in := bufio.NewScanner(os.Stdin)
 	in.Buffer(make([]byte, 1<<20), 1<<26)
 	out := bufio.NewWriter(os.Stdout)
